@@ -246,6 +246,31 @@ def do_mc(ctx, inst, invs, props):
         shutil.rmtree(d, ignore_errors=True)
 
 
+def do_live(ctx, inst, props):
+    """temporal properties under the fair specification (no state constraint)"""
+    d = tlc.workdir("live_%s_%s" % (ctx.pid, inst["name"]))
+    try:
+        mod = "LV_" + inst["name"]
+        with open(os.path.join(d, mod + ".tla"), "w") as f:
+            f.write(instances.mc_module(inst, mod, extends="Props"))
+        body = "SPECIFICATION Spec\nCHECK_DEADLOCK FALSE\n" + "".join("PROPERTY %s\n" % p for p in props)
+        r = tlc.run(d, mod, instances.mc_cfg(inst, body), workers=8, timeout=1500 if ctx.tier != "quick" else 300)
+        ctx.states += r.distinct
+        ctx.transitions += r.generated
+        ctx.mc.append({"instance": inst["name"], "distinct": r.distinct, "generated": r.generated, "liveness": list(props),
+                       "wall_s": round(r.wall, 1), "result": "ok" if r.ok else str(r.violation)})
+        if not r.ok:
+            if r.violation and r.violation[0] == "property":
+                art = save_artifact(ctx, "live_%s" % inst["name"], {"kind": "liveness counterexample", "instance": inst["name"],
+                                                                     "properties": list(props), "tlc": r.out[-4000:]})
+                ctx.violations.append(("a temporal property of %s is violated in the model of the current code of %s"
+                                       % (list(props), inst["name"]), art))
+            else:
+                ctx.errors.append("TLC (liveness) on %s: %s\n%s" % (inst["name"], r.violation, r.out[-1500:]))
+    finally:
+        shutil.rmtree(d, ignore_errors=True)
+
+
 def handle_cex(ctx, inst, r, d, what):
     b = counterexample_behaviour(r.trace)
     res, path, tr = replay_behaviours(inst, [b], d, "cex")
@@ -463,6 +488,9 @@ def main():
     if "mc" in only:
         for inst, invs, props in T["mc"]:
             do_mc(ctx, inst, invs, props)
+    if "mc" in only and not ctx.violations:
+        for inst, props in T["live"]:
+            do_live(ctx, inst, props)
     if "gen" in only and not ctx.violations:
         for inst, limit in T["gen"]:
             do_gen(ctx, inst, limit)
